@@ -20,6 +20,7 @@ def _linit(ctx, rep):
 
 def c01(ctx, rep):
     rules_cmp.nfkd_before_split(ctx, rep)
+    rules_bounds.helper_contracts(ctx, rep)
     rules_bits.packing(ctx, rep, want=('layout', 'inverse'))
     rules_api.encode_api(ctx, rep)
     rules_api.decoders(ctx, rep)
@@ -27,7 +28,6 @@ def c01(ctx, rep):
     rules_tables.search_preconditions(ctx, rep)
     rules_tables.search_callsite(ctx, rep)
     rules_api.detection(ctx, rep)
-    rules_bounds.helper_contracts(ctx, rep)
     rep.assumptions += ['injected NFC/NFKD agree with Unicode normalisation (Python unicodedata is the oracle for the table constants)',
                         'the comparator bodies implement the reference matching rule (C08)']
     return ('conjunction of necessary conditions that is also the proof skeleton of the round trip: packing bijection and symmetric coin '
@@ -51,9 +51,9 @@ def c02(ctx, rep):
 
 
 def c03(ctx, rep):
+    rules_bounds.helper_contracts(ctx, rep)
     rules_bits.packing(ctx, rep, want=('layout',))
     rules_api.encode_api(ctx, rep)
-    rules_bounds.helper_contracts(ctx, rep)
     rules_bits.mul2_and_horner(ctx, rep)
     rules_tables.registry_and_frozen(ctx, rep)
     return ('bit-provenance abstract interpretation of the packer and of polyseed_encode compared bit for bit with the published layout; '
@@ -69,6 +69,7 @@ def c04(ctx, rep):
 
 def c05(ctx, rep):
     rules_bits.mul2_and_horner(ctx, rep)
+    rules_bounds.helper_contracts(ctx, rep)
     rules_api.encode_api(ctx, rep)
     rules_api.decoders(ctx, rep)
     return ('coin enters only coefficient 1, unmasked, on both sides (bitflow exit summaries of encode and of both decoders); L^1 is '
@@ -117,6 +118,7 @@ def c12(ctx, rep):
 
 
 def c13(ctx, rep):
+    rules_bounds.helper_contracts(ctx, rep)
     _linit(ctx, rep)
     rules_api.inject(ctx, rep)
     rules_api.features(ctx, rep)
@@ -190,9 +192,9 @@ def c07(ctx, rep):
 
 def c17(ctx, rep):
     rules_tables.phrase_size(ctx, rep)
-    rules_api.encode_api(ctx, rep)
     rules_bounds.normaliser_buffers(ctx, rep)
     rules_bounds.helper_contracts(ctx, rep)
+    rules_api.encode_api(ctx, rep)
     return ('per-position maxima of word lengths (NFKD and NFC) over all 2048 admissible indices, summed over 16 positions + 15 '
             'separators, compared with the compiled sizeof(polyseed_str); exit summary of encode ties the sum to the 16+15 writer calls')
 
@@ -225,7 +227,13 @@ def c11(ctx, rep):
 
 
 def c14(ctx, rep):
-    # harness runs first: their concrete, bounds-checked accesses feed the inventory rule IDX-2
+    rules_bounds.helper_contracts(ctx, rep)
+    rules_bounds.normaliser_buffers(ctx, rep)
+    rules_cmp.cursor_safety(ctx, rep)
+    rules_bounds.input_immutability(ctx, rep)
+    rules_bounds.no_abort(ctx, rep)
+    rules_own.ownership(ctx, rep)
+    # harness runs: their concrete, bounds-checked accesses feed the inventory rule IDX-2
     rules_bits.mul2_and_horner(ctx, rep)
     rules_bits.packing(ctx, rep, want=('layout', 'inverse'))
     rules_bits.storage(ctx, rep)
@@ -238,12 +246,6 @@ def c14(ctx, rep):
     rules_api.detection(ctx, rep)
     rules_api.features(ctx, rep)
     rules_bounds.counters(ctx, rep)
-    rules_bounds.normaliser_buffers(ctx, rep)
-    rules_bounds.helper_contracts(ctx, rep)
-    rules_cmp.cursor_safety(ctx, rep)
-    rules_bounds.input_immutability(ctx, rep)
-    rules_bounds.no_abort(ctx, rep)
-    rules_own.ownership(ctx, rep)
     rules_tables.phrase_size(ctx, rep)
     rep.assumptions += ['input strings are NUL-terminated (caller contract); injected functions respect their documented buffer sizes',
                         'NOT decided: termination and absence of every undefined-behaviour class as such; only bounds of indexed and cursor accesses, '
